@@ -47,7 +47,7 @@ Inductive metric :=
 Inductive expr :=
 | EAnd (x y : expr)
 | EOr (x y : expr)
-| ECmp (o : cmpop) (m : metric) (tn td : Z).   (* metric o tn/td; td = 10000 for float literals, 1 for int literals *)
+| ECmp (o : cmpop) (m : metric) (tn td : Z).   (* metric o tn/td; td = a power of ten for float literals, 1 for int literals *)
 
 (* value of a metric as a fraction (numerator, denominator >= 1) *)
 Definition mvalue (m : metric) (l : mlog) (now : Z) (lats : list Z) : Z * Z :=
